@@ -61,6 +61,7 @@ type Value struct {
 	Fn  *FuncVal // statically known function value
 	// spec-only kinds
 	SetElem string // non-empty: this is a set value; L[0] is (Array <SetElem> Bool)
+	MapVal  string // non-empty: this is a ghost map value; L[0] is (Array K <MapVal>)
 	Math    bool   // mathematical integer (spec)
 }
 
@@ -430,7 +431,44 @@ func smtIte(c, a, b string) string {
 	return "(ite " + c + " " + a + " " + b + ")"
 }
 
-func smtSel(a, i string) string    { return "(select " + a + " " + i + ")" }
+// smtSel builds (select a i), simplifying select-of-store with a syntactically identical index.
+func smtSel(a, i string) string {
+	if strings.HasPrefix(a, "(store ") {
+		if parts := splitSexp(a); len(parts) == 4 && parts[2] == i {
+			return parts[3]
+		}
+	}
+	return "(select " + a + " " + i + ")"
+}
+
+// splitSexp splits "(f a b c)" into [f a b c] at the top level.
+func splitSexp(s string) []string {
+	if len(s) < 2 || s[0] != '(' || s[len(s)-1] != ')' {
+		return nil
+	}
+	s = s[1 : len(s)-1]
+	var out []string
+	depth, start := 0, 0
+	for i := 0; i < len(s); i++ {
+		switch s[i] {
+		case '(':
+			depth++
+		case ')':
+			depth--
+		case ' ':
+			if depth == 0 {
+				if i > start {
+					out = append(out, s[start:i])
+				}
+				start = i + 1
+			}
+		}
+	}
+	if start < len(s) {
+		out = append(out, s[start:])
+	}
+	return out
+}
 func smtSto(a, i, v string) string { return "(store " + a + " " + i + " " + v + ")" }
 
 func smtNum(s string) string {
